@@ -136,9 +136,10 @@ class Namer:
 def _ports(rng, lo, hi, max_width, data):
     nm = Namer(rng)
     out = []
+    p_unnamed = rng.choice([0.0, 0.0, 0.0, 0.5, 1.0])   # port names are optional in the API
     for _ in range(rng.randint(lo, hi)):
         w = 1 if rng.random() < 0.55 else rng.randint(1, max_width)
-        P = {"name": nm.fresh("P"), "dir": rng.choice(["IN", "OUT", "INOUT"]), "width": w, "scalar": True, "lower": 0,
+        P = {"name": None if rng.random() < p_unnamed else nm.fresh("P"), "dir": rng.choice(["IN", "OUT", "INOUT"]), "width": w, "scalar": True, "lower": 0,
              "downto": True, "data": {}}
         if w > 1:
             P["scalar"] = False
